@@ -55,6 +55,9 @@ structure Flags where
   /-- `resolve_duplicate` (two directories in a tree without versioned directories) calls
   `cancel_creation(existing)` only when `existing` has new contents (true) or always (false) -/
   cancelGuarded : Bool
+  /-- `resolve_parent_loop` leaves a loop whose changed entry has no tree path (a loop of new
+  entries) alone (true) or calls `get_tree_parent` on it, which raises KeyError (false) -/
+  loopGuarded : Bool
   deriving DecidableEq, Repr
 
 structure TT where
@@ -402,8 +405,9 @@ def TT.findChanged (tt : TT) : Nat → Tid → Except Err Tid
       | some (some p) => tt.findChanged fuel p
       | _ => .error .keyError          -- walked past the root: final_parent(ROOT_PARENT) raises KeyError
 
-def TT.resolveParentLoop (tt : TT) (cur : Tid) : Except Err TT := do
+def TT.resolveParentLoop (fl : Flags) (tt : TT) (cur : Tid) : Except Err TT := do
   let cur ← tt.findChanged (tt.next + 2) cur
+  if fl.loopGuarded && (tt.base[cur]?).isNone then return tt     -- no tree position to move back to
   -- adjust_path(final_name(cur), get_tree_parent(cur), cur)
   match tt.finalName cur, (tt.base[cur]?).map (·.parent) with
   | some n, some (some p) => tt.adjustPath n p cur
@@ -439,7 +443,7 @@ def TT.resolveNonDirParent (fl : Flags) (tt : TT) (p : Tid) : Except Err TT :=
 def TT.resolveOne (fl : Flags) (tt : TT) : Conflict → Except Err TT
   | .duplicateId old _ => tt.resolveDuplicateId old
   | .duplicate last cur _ => tt.resolveDuplicate fl last cur
-  | .parentLoop t => tt.resolveParentLoop t
+  | .parentLoop t => tt.resolveParentLoop fl t
   | .missingParent p => tt.resolveMissingParent fl p
   | .unversionedParent p => tt.resolveUnversionedParent fl p
   | .nonDirParent p => tt.resolveNonDirParent fl p
